@@ -204,6 +204,11 @@ class StmtMixin:
             return self.exec_try(s, st)
         if isinstance(s, (ast.With, ast.AsyncWith)):
             for it in s.items:
+                if "with_enter" in self.m.hooks:
+                    # e.g. lock acquisition: other threads may have changed the protected state (rely condition)
+                    self.with_count = getattr(self, "with_count", {})
+                    key = (self.cur, ast.unparse(it.context_expr))
+                    self.m.hooks["with_enter"](self, it.context_expr, st, s)
                 v = self.ev(it.context_expr, st)
                 if it.optional_vars is not None:
                     self.assign(it.optional_vars, v if isinstance(v, (T, TupV)) else self.opaque("ctxmgr"), st)
